@@ -1,6 +1,6 @@
 /-
 Model of sam/header.go, sam/parse_header.go, sam/reference.go, sam/read_group.go, sam/program.go
-(the code after the repairs C07-1 … C07-9 and C11's repairs of the line parsers: a field shorter than three bytes
+(the code after the repairs C07-1 … C07-12 and C11's repairs of the line parsers: a field shorter than three bytes
 and an M5 value that is not 32 digits long are errors).  Core Lean only.
 
 Go pointers are handles into a heap.  There is one heap of objects per kind (references, read groups,
@@ -479,8 +479,10 @@ def referenceLine (E : Ext) (k : KW RefD) (uriPtr : Nat) (h : Nat) (l : Bytes) :
       match k.tabs[h]? with
       | none => (k, .skip)
       | some t =>
-        match lookup t.seen a.name, a.nok with
-        | some dupID, true =>
+        -- `if !nok || !lok { return errBadHeader }` comes first (C07-10)
+        if !a.nok || !a.lok then (k, .err)
+        else match lookup t.seen a.name with
+        | some dupID =>
           match idx t.items dupID with
           | none => (k, .panic)
           | some eo =>
@@ -489,15 +491,14 @@ def referenceLine (E : Ext) (k : KW RefD) (uriPtr : Nat) (h : Nat) (l : Bytes) :
             | some er =>
               -- rf is the zero-valued &Reference{}: its id is 0 in this comparison
               if equalRefs false er { owner := none, id := 0, name := a.name, dat := a.d } then (k, .ok)
-              else if !equalRefs false er (bareRef er.id er.name er.dat.len) then (k, .err)
+              -- a different length is a conflict (C07-11); only a bare entry is replaced
+              else if a.d.len ≠ er.dat.len || !equalRefs false er (bareRef er.id er.name er.dat.len) then (k, .err)
               else
                 let (k1, o) := k.alloc { owner := none, id := -1, name := a.name, dat := a.d }
                 (k1.replace h dupID eo o a.d, .ok)
-        | _, _ =>
-          if !a.nok || !a.lok then (k, .err)
-          else
-            let (k1, o) := k.alloc { owner := none, id := -1, name := a.name, dat := a.d }
-            (k1.addNewU h o, .ok)
+        | none =>
+          let (k1, o) := k.alloc { owner := none, id := -1, name := a.name, dat := a.d }
+          (k1.addNewU h o, .ok)
   | _ => (k, .err)
 
 structure RgV where
@@ -750,6 +751,49 @@ def decodeBinary (E : Ext) (w : World) (h : Nat) (b : Bytes) : World × Res :=
                 | some rs => let (k, r) := addBinRefs w1.refs h 0 rs; ({ w1 with refs := k }, r)
           | r => r
   | _ => (w, .err)
+
+/-- `readRefRecords`, also returning the bytes that were not read -/
+def readRefRecordsR : Nat → Bytes → Option (List (Bytes × Int) × Bytes)
+  | 0, b => some ([], b)
+  | n + 1, b =>
+    match rd32 b with
+    | none => none
+    | some (lName, b) =>
+      if lName < 1 then none
+      else match rdN lName.toNat b with
+        | none => none
+        | some (nm, b) =>
+          if nm.getLast? ≠ some 0 then none
+          else match rd32 b with
+            | none => none
+            | some (lRef, b) =>
+              match readRefRecordsR n b with
+              | none => none
+              | some (rest, b) => some ((nm.dropLast, lRef) :: rest, b)
+
+/-- `Header.DecodeBinary` reading from the front of a longer stream: the third component is what follows the
+header block (meaningful when the result is `ok`; `decodeBinaryR_eq`: the first two are `decodeBinary`) -/
+def decodeBinaryR (E : Ext) (w : World) (h : Nat) (b : Bytes) : World × Res × Bytes :=
+  match b with
+  | 66 :: 65 :: 77 :: 1 :: b =>
+    match rd32 b with
+    | none => (w, .err, b)
+    | some (lText, b) =>
+      if lText < 0 then (w, .err, b)
+      else match rdN lText.toNat b with
+        | none => (w, .err, b)
+        | some (text, b) =>
+          match unmarshalText E w h text with
+          | (w1, .ok) =>
+            match rd32 b with
+            | none => (w1, .err, b)
+            | some (nRef, b) =>
+              if nRef < 0 then (w1, .err, b)
+              else match readRefRecordsR nRef.toNat b with
+                | none => (w1, .err, b)
+                | some (rs, b) => let (k, r) := addBinRefs w1.refs h 0 rs; ({ w1 with refs := k }, r, b)
+          | (w1, r) => (w1, r, b)
+  | _ => (w, .err, b)
 
 /-! ### header-level operations -/
 
@@ -1066,7 +1110,9 @@ def goParseDate (v : Bytes) : Option Bytes :=
                     if (sg = 43 || sg = 45) && [a, b, c, e].all isDigit then
                       let zh := (a - 48) * 10 + (b - 48)
                       let zm := (c - 48) * 10 + (e - 48)
-                      if zh > 24 || zm > 59 then none else some (date ++ time ++ [sg, a, b, c, e])
+                      -- a zero offset is the local (UTC) zone, printed `+0000` whatever sign was read
+                      if zh > 24 || zm > 59 then none
+                      else some (date ++ time ++ [if zh = 0 ∧ zm = 0 then 43 else sg, a, b, c, e])
                     else none
                   | _ => none
               | _, _, _ => none
